@@ -110,7 +110,7 @@ def run_impl(c):
     # connect(name) on an object with a history: it discovered a (decoy) board earlier; which port does it try to open now?
     import serial
     opened = []
-    def fake_serial(name, timeout=None):
+    def fake_serial(name=None, *args, **kwargs):
         opened.append(name); raise serial.SerialException("cannot open (harness)")
     real = ebb3_serial.serial.Serial
     ebb3_serial.serial.Serial = fake_serial
